@@ -490,6 +490,40 @@ pub proof fn lemma_filter_has(s: Seq<ResourceRecord>, p: spec_fn(ResourceRecord)
            let w = choose|w: int| 0 <= w < s.drop_last().filter(p).len() && s.drop_last().filter(p)[w] == s[i];
            if p(s.last()) { assert(s.filter(p)[w] == s[i]); } else { assert(s.filter(p)[w] == s[i]); } }
 }
+// some alias record is part of the answer
+pub open spec fn has_any_alias(rr: Seq<ResourceRecord>) -> bool { exists|i: int| 0 <= i < rr.len() && (#[trigger] rr[i]).rtype_with_data is CNAME }
+pub broadcast proof fn lemma_any_alias_from_named(rr: Seq<ResourceRecord>, q: DomainName)
+    requires #[trigger] has_alias(rr, q)
+    ensures has_any_alias(rr)
+{ let i = choose|i: int| 0 <= i < rr.len() && (#[trigger] rr[i]).name == q && rr[i].rtype_with_data is CNAME; assert(rr[i].rtype_with_data is CNAME); }
+pub broadcast proof fn lemma_any_alias_concat_b(a: Seq<ResourceRecord>, b: Seq<ResourceRecord>)
+    requires has_any_alias(a)
+    ensures has_any_alias(#[trigger] (a + b))
+{ let i = choose|i: int| 0 <= i < a.len() && (#[trigger] a[i]).rtype_with_data is CNAME; assert((a + b)[i] == a[i]); }
+// merging alias records into a list cannot lose all aliases: a dropped one is dropped for an alias of the same name in the list
+pub proof fn lemma_any_alias_merged(a: Seq<ResourceRecord>, b: Seq<ResourceRecord>)
+    requires b.len() > 0, b[0].rtype_with_data is CNAME
+    ensures has_any_alias(merged(a, b))
+{
+    reveal(merged);
+    let p = |rr: ResourceRecord| !has_key(a, key_of(rr));
+    let m = a + b.filter(p);
+    if p(b[0]) {
+        lemma_filter_has(b, p, 0);
+        let w = choose|w: int| 0 <= w < b.filter(p).len() && b.filter(p)[w] == b[0];
+        assert(m[a.len() + w] == b[0]);
+    } else {
+        let j = choose|j: int| 0 <= j < a.len() && key_of(#[trigger] a[j]) == key_of(b[0]);
+        assert(m[j] == a[j]);
+        assert(spec_rtype_of(a[j].rtype_with_data) == RecordType::CNAME);
+        assert(a[j].rtype_with_data is CNAME);
+    }
+}
+pub broadcast proof fn lemma_any_alias_merged_b(a: Seq<ResourceRecord>, b: Seq<ResourceRecord>)
+    requires b.len() > 0, b[0].rtype_with_data is CNAME
+    ensures has_any_alias(#[trigger] merged(a, b))
+{ lemma_any_alias_merged(a, b); }
+pub broadcast group group_any_alias { lemma_any_alias_from_named, lemma_any_alias_concat_b, lemma_any_alias_merged_b }
 pub broadcast proof fn lemma_alias_concat_b(a: Seq<ResourceRecord>, b: Seq<ResourceRecord>, q: DomainName)
     requires #[trigger] has_alias(a, q)
     ensures has_alias(#[trigger] (a + b), q)
